@@ -3,5 +3,6 @@ package main
 // which rules serve which property (DESIGN.md section 4)
 func init() {
 	serve("C01", "T1", "T2")
+	serve("CXX", "T4", "T5", "T6")
 	serve("C06", "T1", "T2")
 }
